@@ -1087,13 +1087,78 @@ Definition xrun_case (c : xcase) : list (list Z) :=
 (* ---------------------------------------------------------------------- *)
 (* what the correspondence check evaluates on every case the implementation ran *)
 
+(* ---------------------------------------------------------------------- *)
+(* callbacks that CALL BACK: an on_quorum_reached / on_quorum_failed handler  *)
+(* that puts a follow-up proposal to the SAME object before the run_vote      *)
+(* call that invoked it has returned (retry with a softer wording, escalation) *)
+
+(* run_vote writes everything it writes (votes_cast, the counters, the result
+   list) BEFORE it invokes a callback, and what it returns is the local
+   `result` it aggregated from the ballots collected in THAT call.  A run_vote
+   call made from inside a handler therefore is, for every observation and
+   for the state it leaves, a second call made right after the first:
+     [RVote i sc on_r on_f]: on object i the two handlers are installed
+     (None: no handler on that side), run_vote is called with script sc; the
+     handler invoked for its outcome - if there is one - calls run_vote on
+     the same object with its own script (the nested call invokes the handler
+     of ITS outcome too; a handler that is already at work does not vote again:
+     it returns); when the outer call has returned the handlers are taken off.
+   The outer call returns ITS OWN result, the nested call its own. *)
+Inductive rop :=
+| RPlain (o : wop)
+| RVote (i : nat) (sc : nat -> behaviour) (on_r on_f : option (nat -> behaviour)).
+
+Definition handler_cb (h : option (nat -> behaviour)) : callback :=
+  match h with Some _ => CbReturns | None => CbNone end.
+
+(* the follow-up script of the handler that the outcome of the outer call invokes *)
+Definition follow_up (o : outcome) (on_r on_f : option (nat -> behaviour)) : option (nat -> behaviour) :=
+  match o with
+  | Result r => if r_reached r then on_r else on_f
+  | RaisedZeroDivision => None           (* raised before any callback *)
+  end.
+
+Definition rexpand (legacy : bool) (w : world) (o : rop) : list wop :=
+  match o with
+  | RPlain o' => [o']
+  | RVote i sc on_r on_f =>
+      match nth_error (w_objs w) i with
+      | None => []
+      | Some p =>
+          [WOn i (TOp (OSetCallbacks (handler_cb on_r) (handler_cb on_f))); WOn i (TOp (OVote sc))]
+          ++ match follow_up (run_vote legacy (pv_cfg p) (voters_of (w_colony w) sc)) on_r on_f with
+             | Some sc' => [WOn i (TOp (OVote sc'))]
+             | None => []
+             end
+          ++ [WOn i (TOp (OSetCallbacks CbNone CbNone))]
+      end
+  end.
+
+(* a history with re-entrant calls, as the history of plain calls it is *)
+Fixpoint rflatten (legacy : bool) (w : world) (ops : list rop) : list wop :=
+  match ops with
+  | [] => []
+  | o :: rest =>
+      let ex := rexpand legacy w o in
+      ex ++ rflatten legacy (wfinal legacy w ex) rest
+  end.
+
+Definition rcase := (config * bool * Q * list (Q * Q) * list rop)%type.
+
+Definition run_reentrant_gen (legacy : bool) (c : rcase) : list (list Z) :=
+  let '(cfg, tracking, timeout, ws, ops) := c in
+  let w := init_world cfg tracking timeout ws in
+  wobs_history legacy w (rflatten legacy w ops).
+
 Inductive anycase :=
 | CWorld (c : wcase)              (* a history on one instance and its copies; finite numbers *)
-| CNonfinite (c : xcase).         (* one run_vote on a fresh instance; numbers may be nan / inf *)
+| CNonfinite (c : xcase)          (* one run_vote on a fresh instance; numbers may be nan / inf *)
+| CReentrant (c : rcase).         (* a history in which handlers call run_vote on the object that invoked them *)
 
 Definition run_case (c : anycase) : list (list Z) :=
   match c with
   | CWorld w => compress (run_world_gen false w)
   | CNonfinite x => xrun_case x
+  | CReentrant r => compress (run_reentrant_gen false r)
   end.
 Definition run_case_legacy (c : wcase) : list (list Z) := compress (run_world_gen true c).
